@@ -338,15 +338,7 @@ class C18(Prop):
         if "crash" in o or "hang" in o:
             return ("crash", f"implementation crashed/hung: {str(o)[:400]}")
         if c["f"] != "plan":
-            for s in o["steps"]:
-                if "err" in s:
-                    continue
-                if set(s["avail"][i][0] for i in range(len(s["avail"]))) != set(s["inst"]):
-                    return ("mapper-maps", f"token_availability and token_instances have different keys: {s}")
-                in_ports = sorted(t for _, ts in s["port_tokens"] for t in ts)
-                if len(in_ports) != len(set(in_ports)):
-                    return ("mapper-maps", f"a token sits in two ports: {s['port_tokens']}")
-            return None
+            return None   # GraphMapper operation sequences are judged by the correspondence only
         tok = {t["id"]: t for t in c["db"]}
         lost = lambda t: not t["avail"] and not (t["job"] is not None and t["recovering"])
         b = o["build"]
@@ -406,7 +398,7 @@ class C18(Prop):
         nl = lambda l: coq_list([f"({coq_N(a)},{ns(b)})" for a, b in l])
         nb = lambda l: coq_list([f"({coq_N(a)},{coq_bool(b)})" for a, b in l])
         return (f"(MOk (mkMobs {ns(s['dag_nodes'])} {pairs(s['dag_edges'])} {ns(s['port_nodes'])} {pairs(s['port_edges'])} "
-                f"{nl(s['port_tokens'])} {nl(s['name_ids'])} {nb(s['avail'])}))")
+                f"{nl(s['port_tokens'])} {nl(s['name_ids'])} {nb(s['avail'])} {ns(s['inst'])}))")
 
     def coq_case(self, c, o):
         if "crash" in o or "hang" in o:
